@@ -319,7 +319,16 @@ fn dot_tokens(text: &str) -> String {
     let mut out = Vec::new();
     for line in text.lines() {
         let l = line.trim();
-        if l.is_empty() || l == "digraph {" || l == "}" {
+        if l.is_empty() {
+            continue;
+        }
+        // the frame of the document: exactly one opening line first and one closing brace last
+        if l == "digraph {" {
+            out.push("OPEN".to_string());
+            continue;
+        }
+        if l == "}" {
+            out.push("CLOSE".to_string());
             continue;
         }
         if let Some(pos) = l.find(" -> ") {
